@@ -20,6 +20,7 @@ theorem decodeRedeem_inv (tb : Tables) (prog wit : List Bool) (d : Decoded)
     ∃ ns rest wrest,
       decProgram tb.jc prog = .ok (ns, rest) ∧ closeOk rest = true ∧
       canonicalOk ns.toArray = true ∧ convert tb.nameOf ns.toArray = .ok d.plan ∧
+      (∀ nd ∈ d.plan.toList, ∀ a, nd ≠ .disconnect a none) ∧
       infer tb.jetTy d.plan true = .ok d.arrows ∧
       readWitnesses d.plan d.arrows wit = .ok (d.wits, wrest) ∧ closeOk wrest = true ∧
       annots tb.jetCmr tb.jetCost d.plan d.arrows (fun i => (d.wits.find? (·.1 = i)).map (·.2)) = some d.annots ∧
@@ -51,6 +52,15 @@ theorem decodeRedeem_inv (tb : Tables) (prog wit : List Bool) (d : Decoded)
       simp only at h
       split at h
       · cases h
+      rename_i hany
+      have hdisc : ∀ nd ∈ plan.toList, ∀ a, nd ≠ .disconnect a none := by
+        intro nd hnd a e
+        subst e
+        apply hany
+        obtain ⟨i, hi, he⟩ := List.mem_iff_getElem.mp hnd
+        refine Array.any_eq_true.mpr ⟨i, by simpa using hi, ?_⟩
+        have : plan[i]'(by simpa using hi) = Node.disconnect a none := by simpa using he
+        rw [this]
       cases hinf : infer tb.jetTy plan true with
       | ok arrows =>
         rw [hinf] at h
@@ -77,7 +87,7 @@ theorem decodeRedeem_inv (tb : Tables) (prog wit : List Bool) (d : Decoded)
             · next hne =>
               simp only [Except.ok.injEq] at h
               subst h
-              refine ⟨ns, rest, wrest, rfl, hcl, hcan, hcv, hinf, hrw, hcl2, han, ?_⟩
+              refine ⟨ns, rest, wrest, rfl, hcl, hcan, hcv, hdisc, hinf, hrw, hcl2, han, ?_⟩
               exact Decidable.not_not.mp hne
       | typeError => rw [hinf] at h; cases h
       | occurs => rw [hinf] at h; cases h
@@ -136,6 +146,55 @@ theorem ihrList_entry (plan : Plan) (an : Array Annot) (i : Nat) (nd : Node) (a 
   rw [hp, ha]
   cases nd <;> first | rfl | exact absurd rfl (hn _)
 
+/-- the facts `DecFacts` from their sources: a backward-referencing node list, its conversion, the
+size of the annotation array, duplicate-free identity roots -/
+theorem decFacts_mk {J : Type} (nameOf : J → String) (ns : List (WNode J)) (plan : Plan)
+    (an : Array Annot) (hne : ns ≠ []) (hok : NodesOk 0 ns)
+    (hcv : convert nameOf ns.toArray = .ok plan) (hansz : an.size = plan.size)
+    (hihr : (ihrList plan an).eraseDups.length = (ihrList plan an).length) :
+    DecFacts nameOf ns.toArray plan an ∧ WellIdx (shapes ns.toArray) ∧
+      0 < ns.toArray.size ∧ hiddenAt ns.toArray (ns.toArray.size - 1) = none := by
+  obtain ⟨hsize, hnode, hroot, hdist⟩ := convert_spec nameOf ns.toArray plan hcv
+  have hlen : 0 < ns.length := List.length_pos_iff.mpr hne
+  have hw : WellIdx (shapes ns.toArray) := by
+    intro i
+    have := wellIdx_of_nodesOk ns 0 hok i
+    simpa [shapes] using this
+  refine ⟨?_, hw, by simpa using hlen, hroot⟩
+  refine ⟨hsize, by rw [hansz, hsize], hnode, ?_, hdist, ?_⟩
+  · intro i n hi
+    have := ok_of_nodesOk ns 0 hok i n (by simpa using hi)
+    simpa using this
+  · intro i j a b hvi hvj hai haj hab
+    have hnd := ListAux.nodup_of_eraseDups_length _ hihr
+    have hi : i < plan.size := by
+      rw [← hansz]
+      rcases Nat.lt_or_ge i an.size with h' | h'
+      · exact h'
+      · rw [Array.getElem?_eq_none h'] at hai; cases hai
+    have hj : j < plan.size := by
+      rw [← hansz]
+      rcases Nat.lt_or_ge j an.size with h' | h'
+      · exact h'
+      · rw [Array.getElem?_eq_none h'] at haj; cases haj
+    have entry : ∀ (k : Nat) (c : Annot), k < plan.size → hiddenAt ns.toArray k = none →
+        an[k]? = some c →
+        (match plan[k]? with
+          | some (.hidden _) => none
+          | _ => (an[k]?).map (·.ihr)) = some c.ihr := by
+      intro k c hk hv hc
+      obtain ⟨n, hA⟩ : ∃ n, ns.toArray[k]? = some n :=
+        ⟨ns.toArray[k]'(by rw [← hsize]; exact hk), Array.getElem?_eq_getElem _⟩
+      obtain ⟨nd, hpk, hcn⟩ := hnode k n hA
+      refine ihrList_entry plan an k nd c hpk ?_ hc
+      refine conv_not_hidden nameOf ns.toArray n nd hcn ?_
+      intro r hr
+      subst hr
+      rw [hiddenAt_hidden hA] at hv; cases hv
+    exact ListAux.filterMap_nodup_inj _ (List.range plan.size) hnd List.nodup_range
+      i (List.mem_range.mpr hi) j (List.mem_range.mpr hj) a.ihr (entry i a hi hvi hai)
+      (by rw [hab]; exact entry j b hj hvj haj)
+
 /-- **what an accepting run of `decodeRedeem` establishes** about the wire list, the plan and the
 annotations: the hypotheses of `encode_decoded` -/
 theorem decodeRedeem_facts (tb : Tables) (prog wit : List Bool) (d : Decoded)
@@ -146,48 +205,10 @@ theorem decodeRedeem_facts (tb : Tables) (prog wit : List Bool) (d : Decoded)
       0 < ns.toArray.size ∧ hiddenAt ns.toArray (ns.toArray.size - 1) = none ∧
       canonicalOk ns.toArray = true ∧
       readWitnesses d.plan d.arrows wit = .ok (d.wits, wrest) ∧ closeOk wrest = true := by
-  obtain ⟨ns, rest, wrest, hp, hcl, hcan, hcv, _, hrw, hcl2, han, hihr⟩ := decodeRedeem_inv tb prog wit d h
+  obtain ⟨ns, rest, wrest, hp, hcl, hcan, hcv, _, _, hrw, hcl2, han, hihr⟩ := decodeRedeem_inv tb prog wit d h
   obtain ⟨hprog, hne, _, hok⟩ := decProgram_canonical tb.jc prog ns rest hp
-  obtain ⟨hsize, hnode, hroot, hdist⟩ := convert_spec tb.nameOf ns.toArray d.plan hcv
   have hansz := annots_size _ _ _ _ _ _ han
-  have hlen : 0 < ns.length := List.length_pos_iff.mpr hne
-  have hw : WellIdx (shapes ns.toArray) := by
-    intro i
-    have := wellIdx_of_nodesOk ns 0 hok i
-    simpa [shapes] using this
-  refine ⟨ns, rest, wrest, hprog, hcl, ?_, hw, by simpa using hlen, hroot, hcan, hrw, hcl2⟩
-  refine ⟨hsize, by rw [hansz, hsize], hnode, ?_, hdist, ?_⟩
-  · intro i n hi
-    have := ok_of_nodesOk ns 0 hok i n (by simpa using hi)
-    simpa using this
-  · intro i j a b hvi hvj hai haj hab
-    have hnd := ListAux.nodup_of_eraseDups_length _ hihr
-    have hi : i < d.plan.size := by
-      rw [← hansz]
-      rcases Nat.lt_or_ge i d.annots.size with h' | h'
-      · exact h'
-      · rw [Array.getElem?_eq_none h'] at hai; cases hai
-    have hj : j < d.plan.size := by
-      rw [← hansz]
-      rcases Nat.lt_or_ge j d.annots.size with h' | h'
-      · exact h'
-      · rw [Array.getElem?_eq_none h'] at haj; cases haj
-    have entry : ∀ (k : Nat) (c : Annot), k < d.plan.size → hiddenAt ns.toArray k = none →
-        d.annots[k]? = some c →
-        (match d.plan[k]? with
-          | some (.hidden _) => none
-          | _ => (d.annots[k]?).map (·.ihr)) = some c.ihr := by
-      intro k c hk hv hc
-      obtain ⟨n, hA⟩ : ∃ n, ns.toArray[k]? = some n :=
-        ⟨ns.toArray[k]'(by rw [← hsize]; exact hk), Array.getElem?_eq_getElem _⟩
-      obtain ⟨nd, hpk, hcn⟩ := hnode k n hA
-      refine ihrList_entry d.plan d.annots k nd c hpk ?_ hc
-      refine conv_not_hidden tb.nameOf ns.toArray n nd hcn ?_
-      intro r hr
-      subst hr
-      rw [hiddenAt_hidden hA] at hv; cases hv
-    exact ListAux.filterMap_nodup_inj _ (List.range d.plan.size) hnd List.nodup_range
-      i (List.mem_range.mpr hi) j (List.mem_range.mpr hj) a.ihr (entry i a hi hvi hai)
-      (by rw [hab]; exact entry j b hj hvj haj)
+  obtain ⟨F, hw, hpos, hroot⟩ := decFacts_mk tb.nameOf ns d.plan d.annots hne hok hcv hansz hihr
+  exact ⟨ns, rest, wrest, hprog, hcl, F, hw, hpos, hroot, hcan, hrw, hcl2⟩
 
 end Prog
